@@ -66,14 +66,25 @@ KEXP = None
 
 def exp_holds(a, b, c):
     """(a, b, c) in the exponential cone  c*exp(a/c) <= b, c > 0 (closure).  Kept as an uninterpreted
-    predicate on proxies: the dual contracts only need that equal arguments give equal membership."""
+    predicate on proxies, with the one order property the contracts need instantiated on every pair of
+    applications:  the cone is upward closed in its middle component  (a,b,c) in K, b <= b'  =>  (a,b',c) in K."""
     if any(isinstance(v, SymReal) for v in (a, b, c)):
         global KEXP
         import z3
-        from ..sym import SymBool, to_z3
+        from ..sym import SymBool, to_z3, ctx
         if KEXP is None:
             KEXP = z3.Function("KEXP", z3.RealSort(), z3.RealSort(), z3.RealSort(), z3.BoolSort())
-        return SymBool(KEXP(to_z3(a), to_z3(b), to_z3(c)))
+        ta, tb, tc = to_z3(a), to_z3(b), to_z3(c)
+        app = KEXP(ta, tb, tc)
+        cx = ctx()
+        seen = getattr(cx, "_kexp_apps", None)
+        if seen is None:
+            seen = cx._kexp_apps = []
+        for (a2, b2, c2, app2) in seen:
+            cx.assume(SymBool(z3.Implies(z3.And(a2 == ta, c2 == tc, b2 <= tb, app2), app)))
+            cx.assume(SymBool(z3.Implies(z3.And(a2 == ta, c2 == tc, tb <= b2, app), app2)))
+        seen.append((ta, tb, tc, app))
+        return SymBool(app)
     a, b, c = float(a), float(b), float(c)
     if c > 0:
         return c * math.exp(a / c) <= b + 1e-7 * (1 + abs(b))
